@@ -830,7 +830,14 @@ func c14Check(x *core.Ctx, c *core.Case) {
 		var raw2 interface{}
 		if json.Unmarshal([]byte(c.Get("value")), &raw2) == nil {
 			if where, in, out := numberChanged(decodeTyped(raw2), got, "$v"); where != "" {
-				x.Violate("number-changed-by-coercion", fmt.Sprintf("%s: %s became %s", where, in, out), "the same numeric value")
+				switch {
+				case out == "<absent>":
+					x.Violate("supplied-key-dropped-by-coercion", fmt.Sprintf("%s (%s) is missing from the result", where, in), "every supplied input field in the result")
+				case strings.HasPrefix(out, "<not null>"):
+					x.Violate("supplied-null-replaced-by-coercion", fmt.Sprintf("%s (%s) became %s", where, in, strings.TrimPrefix(out, "<not null> ")), "null stays null")
+				default:
+					x.Violate("number-changed-by-coercion", fmt.Sprintf("%s: %s became %s", where, in, out), "the same numeric value")
+				}
 				return
 			}
 			x.Count("numbers_compared")
@@ -921,10 +928,16 @@ func numberChanged(in, out interface{}, path string) (string, string, string) {
 	case ri.Kind() == reflect.Map && ro.Kind() == reflect.Map && ri.Type().Key().Kind() == reflect.String && ro.Type().Key().Kind() == reflect.String:
 		for _, k := range ri.MapKeys() {
 			ov := ro.MapIndex(k)
-			if ov.IsValid() {
-				if w, a, b := numberChanged(ri.MapIndex(k).Interface(), ov.Interface(), path+"."+k.String()); w != "" {
-					return w, a, b
-				}
+			if !ov.IsValid() {
+				// a key the caller supplied (an explicit null included) is not the same as no key: defaults apply to absent
+				// fields only
+				return path + "." + k.String(), fmt.Sprintf("supplied: %v", ri.MapIndex(k).Interface()), "<absent>"
+			}
+			if iv := ri.MapIndex(k).Interface(); iv == nil && ov.Interface() != nil {
+				return path + "." + k.String(), "supplied: null", fmt.Sprintf("<not null> %v", ov.Interface())
+			}
+			if w, a, b := numberChanged(ri.MapIndex(k).Interface(), ov.Interface(), path+"."+k.String()); w != "" {
+				return w, a, b
 			}
 		}
 	}
